@@ -335,6 +335,22 @@ func prepareGen(spec *Spec, flavours []string, genSeed uint64, genN int) *built 
 			infra("build of %s failed: %v\n%s", pkg, err, out)
 		}
 		b.env = append(b.env, envName+"="+bin)
+		for _, fl := range flavours {
+			if fl != "race" {
+				continue
+			}
+			// the same command with the race detector, for the race flavour's
+			// whole-binary plans
+			rbin := bin + "-race"
+			cmd := exec.Command("go", "build", "-race", "-modfile="+b.modfile, "-overlay="+b.overlay, "-o", rbin, pkg)
+			cmd.Dir = verifDir
+			cmd.Env = goEnv()
+			if out, err := cmd.CombinedOutput(); err != nil {
+				os.RemoveAll(work)
+				infra("build of %s (-race) failed: %v\n%s", pkg, err, out)
+			}
+			b.env = append(b.env, envName+"_RACE="+rbin)
+		}
 		gd := filepath.Join(work, "golden")
 		os.MkdirAll(gd, 0755)
 		b.env = append(b.env, "VERIF_C06_GOLDEN="+gd)
